@@ -486,8 +486,11 @@ func calculateChanges(oldVals, newVals map[string]string) (add, remove []KV) {
 		}
 	}
 
+	// a key whose value changed is only reported as an add (which replaces the value):
+	// removes are delivered after adds and are matched by key, so reporting it as a
+	// remove as well would delete the value that has just been added.
 	for k, v := range oldVals {
-		if val, ok := newVals[k]; !ok || v != val {
+		if _, ok := newVals[k]; !ok {
 			remove = append(remove, KV{
 				Key: k,
 				Val: v,
